@@ -1,6 +1,7 @@
 """C04: tasks run depth-first in request order; identical invocations run once."""
 import itertools
 import random
+import time
 
 from .. import coqterm as ct
 from ..core import Prop
@@ -8,6 +9,9 @@ from ..core import Prop
 PNAMES = ["xx", "yy", "flag"]
 DEFAULTS = [None, False, True, 0, 1, 7, "a", ""]
 VALS = [None, False, True, 0, 1, 7, 9, "a", "b", ""]
+BOUND = ["build", "deploy", "clean", "test", "docs", "lint"]
+ALIASES = ["b", "d", "cl", "t", "dx", "ln"]
+COLLS = ["root", "sub", "lib"]
 
 
 # --------------------------------------------------------------------------
@@ -47,6 +51,32 @@ def tree_size(case, tid, memo=None):
     return memo[tid]
 
 
+def names_of(case, tid):
+    """every dotted name the task answers to on the command line: (kind, name)"""
+    t = case["tasks"][tid]
+    pre = "" if t["coll"] == "root" else t["coll"] + "."
+    out = [("primary", pre + t["bound"])] + [("alias", pre + a) for a in t.get("aliases", [])]
+    if t["coll"] != "root" and t.get("default"):
+        out.append(("shortcut", t["coll"]))
+    return out
+
+
+def default_tid(case):
+    """the task `prog` without arguments runs"""
+    rd = case.get("root_default")
+    for t in case["tasks"]:
+        if rd is None and t["coll"] == "root" and t.get("default"):
+            return t["id"]
+        if rd is not None and t["coll"] == rd and t.get("default"):
+            return t["id"]
+    return None
+
+
+def eq_class(case, tid):
+    t = case["tasks"][tid]
+    return ("factory", t["factory"]) if t.get("factory") is not None else ("own", tid)
+
+
 class C04(Prop):
     id = "C04"
     corr_module = "Corr.C04Corr"
@@ -54,22 +84,28 @@ class C04(Prop):
     quick_n = 2400
     thorough_n = 40000
     shard_size = 200
-    rule = ("random acyclic pre/post graphs over 1-6 tasks (plain references and call(...) with positional/keyword "
-            "arguments; parameters with defaults of every leaf kind) x request sequences of 0-4 entries in the three "
-            "forms (name, (name, kwargs), real ParserContext from Parser(to_contexts()).parse_argv) x dedupe on/off x "
-            "default task or none; non-trivial = some task is reached at least twice or both as pre and post; "
-            "distinct by whole case")
+    rule = ("random acyclic pre/post graphs over 1-6 tasks spread over a root collection and two sub-collections "
+            "(same bound names in different collections, own aliases, default tasks, a sub-collection as root default; "
+            "groups of tasks made by one factory function: same name, same code object, different closure), hooks as "
+            "plain references and call(...) with positional/keyword arguments, graphs built with Task(...) or the "
+            "@task decorator x request sequences of 0-4 entries (names, aliases and collection shortcuts; as strings, "
+            "(name, kwargs) pairs, ParserContexts parsed one by one or all from ONE command line) x dedupe on/off; "
+            "observed arguments compared type-strictly; non-trivial = some task is reached at least twice; distinct "
+            "by whole case")
     trusted_base = [
         "Coq 8.16.1 kernel + vm_compute (shard evaluation)",
-        "hand-written model coq/Model/ExecModel.v + Common/PyCall.v tied to invoke/executor.py, tasks.Call.__eq__ by "
-        "differential execution of real Executor sessions (this run)",
-        "harness/coqterm.py, harness/props/c04.py (graph builder, unfolding of the DAG into call trees)",
+        "hand-written model coq/Model/ExecModel.v + Common/PyCall.v tied to invoke/executor.py, tasks.Call.__eq__, "
+        "Task.__eq__ by differential execution of real Executor sessions (this run)",
+        "harness/coqterm.py, harness/props/c04.py (graph builder, unfolding of the DAG into call trees, the "
+        "assignment of tasks to Task.__eq__ classes: same factory = same class)",
         "CPython 3.12 executing /repo (argument binding is Python's own)",
     ]
     assumptions = [
         "pre/post graphs are acyclic (the inductive [call] type cannot express a cycle; invoke itself recurses forever on one)",
         "every generated call binds to its task's signature (no TypeError); argument values are None/bool/int/str",
-        "task identity = distinct body code (Task.__eq__ compares name and body code; every generated task has its own)",
+        "'identical' = same task object and Python-equal effective arguments; the arguments a body receives are "
+        "compared type-strictly with the ones specified",
+        "names are plain lower-case words (normalisation is C10's subject)",
     ]
     not_modelled = ["autoprint output", "config reloading per call (C19)", "Call subclasses / parameterised expansion"]
 
@@ -92,24 +128,67 @@ class C04(Prop):
     def _gen(self, rng):
         n = rng.randint(1, 6)
         p_params = rng.choice([0.0, 0.5, 0.8])
-        case = {"tasks": [], "requests": [], "default": None, "dedupe": rng.random() < 0.7}
+        flat = rng.random() < 0.3
+        case = {"tasks": [], "requests": [], "root_default": None, "dedupe": rng.random() < 0.7,
+                "cmdline": False, "decorator": rng.random() < 0.4}
+        used = {c: set() for c in COLLS}
+        has_default = {c: False for c in COLLS}
+        n_fact = 0
         for i in range(n):
+            coll = "root" if flat else rng.choice(COLLS)
             ps = []
             if rng.random() < p_params:
                 for p in rng.sample(PNAMES, rng.randint(1, 2)):
                     ps.append([p, rng.choice(DEFAULTS)])
-            case["tasks"].append({"id": i, "name": "t%d" % i, "params": ps, "pre": [], "post": []})
+            factory = None
+            own = None
+            # a sibling made by the same factory as an earlier task
+            if case["tasks"] and rng.random() < 0.15:
+                src = rng.choice(case["tasks"])
+                if src.get("factory") is None:
+                    n_fact += 1
+                    src["factory"] = n_fact
+                factory, ps, own = src["factory"], [list(p) for p in src["params"]], src["name"]
+            free = [b for b in BOUND if b not in used[coll]]
+            if not free:
+                coll = "root"
+                free = [b for b in BOUND + ["extra%d" % i] if b not in used[coll]]
+            bound = rng.choice(free)
+            used[coll].add(bound)
+            aliases = []
+            if rng.random() < 0.35:
+                fa = [a for a in ALIASES if a not in used[coll]]
+                if fa:
+                    aliases = [rng.choice(fa)]
+                    used[coll].add(aliases[0])
+            dflt = False
+            if not has_default[coll] and rng.random() < 0.4:
+                dflt = has_default[coll] = True
+            case["tasks"].append({"id": i, "name": own or bound, "bound": bound, "coll": coll, "aliases": aliases,
+                                  "params": ps, "pre": [], "post": [], "factory": factory, "default": dflt})
         p_args = rng.choice([0.0, 0.4, 0.8])
         for i in range(n - 1):
             later = list(range(i + 1, n))
             for kind in ("pre", "post"):
                 for _ in range(rng.choice([0, 0, 1, 1, 2])):
                     case["tasks"][i][kind].append(self._hook(rng, case, rng.choice(later), p_args))
-        for _ in range(rng.choice([0, 1, 1, 2, 2, 3, 4])):
-            tid = rng.randrange(n)
+        # the root's default may be a sub-collection (then the root has no default task of its own)
+        subs_with_default = [c for c in ("sub", "lib") if has_default[c]]
+        if subs_with_default and not has_default["root"] and rng.random() < 0.6:
+            case["root_default"] = rng.choice(subs_with_default)
+        nreq = rng.choice([0, 1, 1, 2, 2, 3, 4])
+        cmdline = rng.random() < 0.3
+        case["cmdline"] = cmdline
+        for _ in range(nreq):
+            # the same task again, under another of its names, fairly often
+            if case["requests"] and rng.random() < 0.35:
+                tid = rng.choice(case["requests"])["task"]
+            else:
+                tid = rng.randrange(n)
             ps = case["tasks"][tid]["params"]
-            form = rng.choice(["name", "pair", "ctx", "ctx"])
-            req = {"form": form, "task": tid}
+            form = "ctx" if cmdline else rng.choice(["name", "name", "pair", "ctx", "ctx"])
+            kind, nm = rng.choice(names_of(case, tid))
+            req = {"form": form, "task": tid, "as": nm}
             if form == "pair":
                 req["kwargs"] = {p: (d if rng.random() < 0.4 else rng.choice(VALS))
                                  for p, d in ps if rng.random() < 0.6}
@@ -127,8 +206,6 @@ class C04(Prop):
                             toks += ["--" + p, rng.choice(["a", "b", d or "a"])]
                 req["tokens"] = toks
             case["requests"].append(req)
-        if rng.random() < 0.4:
-            case["default"] = rng.randrange(n)
         return case
 
     def generate(self, rng, tier, n):
@@ -141,32 +218,38 @@ class C04(Prop):
             out += 1
 
     def enumerate_small(self, tier):
-        """all graphs over <= 3 tasks with <= 1 pre and <= 1 post each (plain or with the one argument given
-        positionally / by keyword / as its default) x requests of <= 2 names x dedupe"""
+        """all graphs over 3 tasks (one in a sub-collection, with an alias and as its default) with <= 1 pre and
+        <= 1 post each (plain or with the one argument given positionally / by keyword / as its default) x
+        request sequences under every name x both request styles x dedupe"""
         hooks = lambda j: [None, {"task": j}, {"task": j, "args": [1], "kwargs": {}},
                            {"task": j, "args": [], "kwargs": {"xx": 1}}, {"task": j, "args": [0], "kwargs": {}}]
         n = 3
         for h01, h02, h12p in itertools.product(hooks(1), hooks(2), hooks(2)):
             for post in (False, True):
-                tasks = [{"id": i, "name": "t%d" % i, "params": [["xx", 0]], "pre": [], "post": []} for i in range(n)]
+                tasks = [{"id": i, "name": "t%d" % i, "bound": "t%d" % i, "coll": "root" if i < 2 else "sub",
+                          "aliases": ["a%d" % i] if i != 1 else [], "params": [["xx", 0]], "pre": [], "post": [],
+                          "factory": None, "default": i != 1} for i in range(n)]
                 if h01:
                     tasks[0]["pre"].append(h01)
                 if h02:
                     tasks[0]["post" if post else "pre"].append(h02)
                 if h12p:
                     tasks[1]["post" if post else "pre"].append(h12p)
-                for reqs in [[0], [0, 1], [2, 0], [1, 2], []]:
+                for reqs in [[(0, "t0")], [(0, "t0"), (0, "a0")], [(2, "sub.t2"), (2, "sub"), (0, "t0")],
+                             [(1, "t1"), (2, "sub.a2")], []]:
                     for form in ("name", "ctx"):
                         for dd in (True, False):
-                            yield {"tasks": tasks, "default": 0, "dedupe": dd,
-                                   "requests": [{"form": form, "task": r, "tokens": []} for r in reqs]}
+                            yield {"tasks": tasks, "root_default": None, "dedupe": dd, "cmdline": form == "ctx",
+                                   "decorator": post,
+                                   "requests": [{"form": form, "task": t, "as": nm, "tokens": []} for t, nm in reqs]}
 
     # ---- implementation ------------------------------------------------------
     def run_impl(self, case):
-        from invoke import Collection, Config, Executor, Task, call
+        from invoke import Collection, Config, Executor, Task, call, task as task_deco
         from invoke.parser import Parser
         log = []
         objs = {}
+        factories = {}
 
         def on_call(tid, kw):
             log.append([tid, kw])
@@ -174,38 +257,71 @@ class C04(Prop):
 
         for t in reversed(case["tasks"]):
             ps = ", ".join("%s=%r" % (p, d) for p, d in t["params"])
-            src = "def body(c%s):\n    return _run(%d, dict(%s))\n" % (
-                (", " + ps) if ps else "", t["id"], ", ".join("%s=%s" % (p, p) for p, _ in t["params"]))
-            ns_ = {"_run": on_call}
-            exec(src, ns_)
-            body = ns_["body"]
+            call_kw = ", ".join("%s=%s" % (p, p) for p, _ in t["params"])
+            if t.get("factory") is not None:
+                # one factory function per group: same code object, the task id lives in the closure
+                if t["factory"] not in factories:
+                    # (the group number is a constant of the code object: different factories differ)
+                    src = ("def make(tid):\n    def body(c%s):\n        _group = %d\n        return _run(tid, dict(%s))\n"
+                           "    return body\n" % ((", " + ps) if ps else "", t["factory"], call_kw))
+                    ns_ = {"_run": on_call}
+                    exec(src, ns_)
+                    factories[t["factory"]] = ns_["make"]
+                body = factories[t["factory"]](t["id"])
+            else:
+                src = "def body(c%s):\n    return _run(%d, dict(%s))\n" % ((", " + ps) if ps else "", t["id"], call_kw)
+                ns_ = {"_run": on_call}
+                exec(src, ns_)
+                body = ns_["body"]
             body.__name__ = t["name"]
 
             def hook(h):
                 if "args" not in h and "kwargs" not in h:
                     return objs[h["task"]]
                 return call(objs[h["task"]], *h.get("args", []), **h.get("kwargs", {}))
-            task = Task(body, name=t["name"], pre=[hook(h) for h in t["pre"]], post=[hook(h) for h in t["post"]])
-            task._verif_id = t["id"]
-            objs[t["id"]] = task
-        coll = Collection()
+            pre = [hook(h) for h in t["pre"]]
+            post = [hook(h) for h in t["post"]]
+            kw = dict(name=t["name"], aliases=tuple(t.get("aliases", [])), post=post)
+            if case.get("decorator"):
+                tk = task_deco(*pre, **kw)(body) if pre else task_deco(**kw)(body)
+            else:
+                tk = Task(body, pre=pre, **kw)
+            tk._verif_id = t["id"]
+            objs[t["id"]] = tk
+        colls = {"root": Collection()}
+        for cname in ("sub", "lib"):
+            if any(t["coll"] == cname for t in case["tasks"]):
+                colls[cname] = Collection(cname)
         for t in case["tasks"]:
-            coll.add_task(objs[t["id"]], default=(case["default"] == t["id"]))
+            colls[t["coll"]].add_task(objs[t["id"]], name=t["bound"], default=bool(t.get("default")))
+        for cname in ("sub", "lib"):
+            if cname in colls:
+                colls["root"].add_collection(colls[cname], default=(case.get("root_default") == cname))
+        coll = colls["root"]
         reqs, req_kwargs = [], []
         try:
-            for r in case["requests"]:
-                name = case["tasks"][r["task"]]["name"]
-                if r["form"] == "name":
-                    reqs.append(name)
-                    req_kwargs.append({})
-                elif r["form"] == "pair":
-                    reqs.append((name, dict(r["kwargs"])))
-                    req_kwargs.append(dict(r["kwargs"]))
-                else:
-                    parsed = Parser(contexts=coll.to_contexts()).parse_argv([name] + r.get("tokens", []))
-                    ctx = parsed[0]
+            if case.get("cmdline") and case["requests"]:
+                argv = []
+                for r in case["requests"]:
+                    argv += [r["as"]] + r.get("tokens", [])
+                parsed = Parser(contexts=coll.to_contexts()).parse_argv(argv)
+                if len(parsed) != len(case["requests"]):
+                    raise ValueError("command line parsed into %d contexts" % len(parsed))
+                for ctx in parsed:
                     reqs.append(ctx)
                     req_kwargs.append(dict(ctx.as_kwargs))
+            else:
+                for r in case["requests"]:
+                    if r["form"] == "name":
+                        reqs.append(r["as"])
+                        req_kwargs.append({})
+                    elif r["form"] == "pair":
+                        reqs.append((r["as"], dict(r["kwargs"])))
+                        req_kwargs.append(dict(r["kwargs"]))
+                    else:
+                        ctx = Parser(contexts=coll.to_contexts()).parse_argv([r["as"]] + r.get("tokens", []))[0]
+                        reqs.append(ctx)
+                        req_kwargs.append(dict(ctx.as_kwargs))
         except Exception as e:  # a request the parser refuses: not a C04 case
             return {"req_kwargs": None, "err": "request:" + type(e).__name__}
         cfg = Config(overrides={"tasks": {"dedupe": bool(case["dedupe"])}})
@@ -230,19 +346,22 @@ class C04(Prop):
     def to_coq(self, case, obs):
         sigs = ct.lst([ct.pair(ct.n(t["id"]), ct.lst([ct.pair(ct.s(p), ct.value(d)) for p, d in t["params"]]))
                        for t in case["tasks"]])
+        eqk = ct.lst([ct.pair(ct.n(t["id"]), ct.n(1000 + t["factory"])) for t in case["tasks"]
+                      if t.get("factory") is not None])
         rk = obs.get("req_kwargs")
         if rk is None:   # unusable request: an empty, trivially true case
-            return "(mk %s [] None true (Ok ([], [])))" % sigs
+            return "(mk %s %s [] None true (Ok ([], [])))" % (sigs, eqk)
         reqs = ct.lst([ct.pair(self._tree(case, r["task"], [], {}), self._kw(k))
                        for r, k in zip(case["requests"], rk)])
-        dflt = ct.opt(self._tree(case, case["default"], [], {}) if case["default"] is not None else None)
+        dt = default_tid(case)
+        dflt = ct.opt(self._tree(case, dt, [], {}) if dt is not None else None)
         if "err" in obs:
             o = "(Err %s)" % ct.err(obs["err"])
         else:
             log = ct.lst([ct.pair(ct.n(t), self._kw(kw)) for t, kw in obs["ok"]["log"]])
             res = ct.lst([ct.pair(ct.n(t), ct.n(v)) for t, v in obs["ok"]["results"]])
             o = "(Ok (%s, %s))" % (log, res)
-        return "(mk %s %s %s %s %s)" % (sigs, reqs, dflt, ct.b(case["dedupe"]), o)
+        return "(mk %s %s %s %s %s %s)" % (sigs, eqk, reqs, dflt, ct.b(case["dedupe"]), o)
 
     # ---- classification ----------------------------------------------------------
     def _order(self, case, obs):
@@ -251,8 +370,10 @@ class C04(Prop):
         if case["requests"]:
             for r, k in zip(case["requests"], rk):
                 expand(case, r["task"], [], k, out)
-        elif case["default"] is not None:
-            expand(case, case["default"], [], {}, out)
+        else:
+            dt = default_tid(case)
+            if dt is not None:
+                expand(case, dt, [], {}, out)
         return out
 
     def nontrivial(self, case, obs):
@@ -270,23 +391,36 @@ class C04(Prop):
         if len(obs["ok"]["log"]) < len(order):
             kind += ":skipped"
         if not case["requests"]:
-            kind += ":default" if case["default"] is not None else ":nothing"
+            kind += ":default" if default_tid(case) is not None else ":nothing"
+        elif case.get("cmdline"):
+            kind += ":cmdline"
         return kind
 
     def finding_of(self, case, obs):
-        """F-C04: dedupe is on and two calls of the session have the same
-        effective arguments but differ literally"""
+        """F-C04: dedupe on and two calls of one task have the same effective arguments but differ literally.
+        F-C04c: dedupe on and two *different* tasks of one factory (same Task.__eq__ class) are called with
+        Python-equal literal arguments.  (The adjusted judgement is made in Coq: core consults this only
+        when the faithful model agrees with the implementation.)"""
         if not case["dedupe"] or obs.get("req_kwargs") is None:
             return None
         order = self._order(case, obs)
+        found = None
         for a, b in itertools.combinations(order, 2):
             if a[0] == b[0] and (a[1], a[2]) != (b[1], b[2]):
                 ba, bb = bind(case, a), bind(case, b)
                 if ba is not None and ba == bb:
-                    return "F-C04"
-        return None
+                    found = found or "F-C04"
+            if a[0] != b[0] and eq_class(case, a[0]) == eq_class(case, b[0]) and (a[1], a[2]) == (b[1], b[2]):
+                return "F-C04c"
+        return found
+
+    _shrink_t0 = None
 
     def shrink_candidates(self, case):
+        if self._shrink_t0 is None:
+            self._shrink_t0 = time.time()
+        if time.time() - self._shrink_t0 > 60:
+            return
         reqs = case["requests"]
         for i in range(len(reqs)):
             yield dict(case, requests=reqs[:i] + reqs[i + 1:])
@@ -301,17 +435,26 @@ class C04(Prop):
                         t2 = dict(t)
                         t2[kind] = t[kind][:hi] + [{"task": h["task"]}] + t[kind][hi + 1:]
                         yield dict(case, tasks=case["tasks"][:ti] + [t2] + case["tasks"][ti + 1:])
+        if case.get("cmdline"):
+            yield dict(case, cmdline=False)
+        if case.get("decorator"):
+            yield dict(case, decorator=False)
         for i, r in enumerate(reqs):
-            if r["form"] != "name":
-                yield dict(case, requests=reqs[:i] + [{"form": "name", "task": r["task"]}] + reqs[i + 1:])
+            if r["form"] != "name" and not case.get("cmdline"):
+                yield dict(case, requests=reqs[:i] + [{"form": "name", "task": r["task"], "as": r["as"]}] + reqs[i + 1:])
 
     def mutate(self, case, rng):
         for _ in range(30):
             c = dict(case)
             c["dedupe"] = rng.random() < 0.7
+            c["cmdline"] = False
             n = len(case["tasks"])
-            c["requests"] = [{"form": rng.choice(["name", "ctx"]), "task": rng.randrange(n), "tokens": []}
-                             for _ in range(rng.randint(1, 3))]
+            reqs = []
+            for _ in range(rng.randint(1, 3)):
+                tid = rng.randrange(n)
+                reqs.append({"form": rng.choice(["name", "ctx"]), "task": tid,
+                             "as": rng.choice(names_of(case, tid))[1], "tokens": []})
+            c["requests"] = reqs
             yield c
 
 
